@@ -54,7 +54,9 @@ fn gen_wops(r: &mut Rng) -> Vec<(Vec<u8>, WResp)> {
     let mut ops = vec![];
     let n = 1 + r.below(6) as usize;
     for _ in 0..n {
-        let len = match r.below(6) { 0 => 0, 1 => 1, 2 => 16, 3 => 17, 4 => 40 + r.below(260) as usize, _ => r.below(40) as usize };
+        // mostly small; now and then as large as the largest frame a connection may send, and around 4 KiB
+        let len = match r.below(14) { 0 | 7 => 0, 1 | 8 => 1, 2 | 9 => 16, 3 | 10 => 17, 4 | 11 => 40 + r.below(260) as usize,
+                                      12 => *r.pick(&[4095usize, 4096, 4097, 6000, 8192, 10_002]), _ => r.below(40) as usize };
         let mut rest = r.bytes(len);
         let mut guard = 0;
         loop {
@@ -85,8 +87,15 @@ fn run_writes(cs: &mut Cs, ops: &[(Vec<u8>, WResp)]) -> Vec<Option<usize>> {
     let waker = Waker::noop();
     let mut cx = Context::from_waker(&waker);
     let mut results = vec![];
-    for (buf, _) in ops {
-        match Pin::new(&mut *cs).poll_write(&mut cx, buf) {
+    for (i, (buf, _)) in ops.iter().enumerate() {
+        // every third call goes through poll_write_vectored with the same bytes as the first non-empty slice
+        // (tokio's default implementation writes exactly that slice): same meaning, different entry point
+        let res = if i % 3 == 2 && !buf.is_empty() {
+            let extra = [0xEEu8; 7];
+            let slices = [std::io::IoSlice::new(&[]), std::io::IoSlice::new(buf), std::io::IoSlice::new(&extra)];
+            Pin::new(&mut *cs).poll_write_vectored(&mut cx, &slices)
+        } else { Pin::new(&mut *cs).poll_write(&mut cx, buf) };
+        match res {
             Poll::Ready(Ok(n)) => results.push(Some(n)),
             _ => results.push(None),
         }
